@@ -74,6 +74,50 @@ def items_for(declared, crate_filter):
     return items
 
 
+def serde_items(declared, dt):
+    """C17: with serialisation support enabled every predefined quantity and unit type serialises and deserialises"""
+    items = []
+    raw = json.load(open(os.path.join(os.path.dirname(os.path.dirname(os.path.abspath(__file__))), 'spec', 'catalogue.json'), encoding='utf-8'))
+    for T in raw.get('serde_types', []):
+        Q = cp.rust_type(T, dt)
+        U = Q + 'Unit'
+        items += [
+            ('C17', '%s: Serialize' % T, 'pub fn f(q: %s) -> String { serde_json::to_string(&q).unwrap() }' % Q),
+            ('C17', '%s: Deserialize' % T, 'pub fn f(s: &str) -> %s { serde_json::from_str(s).unwrap() }' % Q),
+            ('C17', '%sUnit: Serialize' % T, 'pub fn f(u: %s) -> String { serde_json::to_string(&u).unwrap() }' % U),
+            ('C17', '%sUnit: Deserialize' % T, 'pub fn f(s: &str) -> %s { serde_json::from_str(s).unwrap() }' % U),
+        ]
+    return items
+
+
+def run_serde(ctx, be, declared_path):
+    """item probe of the serde configuration (features doc + serde [+ fpdec]); if the library itself does not build
+    in this configuration, every serde item is missing"""
+    declared = qv.load_declared(declared_path)
+    dt = {t['T']: t for t in declared['types']}
+    items = serde_items(declared, dt)
+    head = ['#![allow(unused, dead_code, non_snake_case)]', 'use quantities::prelude::*;']
+    lines = list(head)
+    index = {}
+    for (prop, desc, code) in items:
+        ln = len(lines) + 1
+        lines.append('pub mod m%d { use super::*; %s }' % (ln, code))
+        index[ln] = {'kind': 'item', 'prop': prop, 'item': desc, 'code': code}
+    d = os.path.join(ctx['rundir'], 'itemprobe_serde_%s' % be)
+    cp.write_crate(d, ctx['repo'], be, '\n'.join(lines) + '\n', astro=False, extra_features=('serde',),
+                   extra_deps=('serde = { version = "1", features = ["derive"] }', 'serde_json = { version = "1.0", features = ["float_roundtrip"] }'))
+    rc, diags, dep_failed, err = cp.cargo_check(d, os.path.join(ctx['work'], 'target_probe_serde'))
+    if dep_failed:
+        evs = []
+        for ln, prog in sorted(index.items()):
+            e = dict(prog)
+            e.update({'line': ln, 'verdict': 'err', 'codes': ['library does not build with serialisation support (%s): %s' % (be, dep_failed[1][:120])]})
+            evs.append(e)
+        return evs
+    evs, stray = cp.verdicts(index, diags)
+    return evs
+
+
 def run(ctx, be, declared_path, crate_filter, astro):
     declared = qv.load_declared(declared_path)
     items = items_for(declared, crate_filter)
